@@ -222,7 +222,7 @@ func (m *chainModel) cliqueAllowed(p *node) (allowed, recent []ecommon.Address) 
 }
 
 // cliqueGood builds a reference-valid child of p. vote: target address and direction (zero address = no vote).
-func (m *chainModel) cliqueGood(p *node, pick int, preferInTurn bool, target ecommon.Address, authorize bool, root ecommon.Hash, dt uint64) (*types.Header, int) {
+func (m *chainModel) cliqueGood(p *node, pick int, mode int, target ecommon.Address, authorize bool, root ecommon.Hash, dt uint64) (*types.Header, int) {
 	e := m.e
 	num := p.h.Number.Uint64() + 1
 	ps := p.cs
@@ -233,11 +233,8 @@ func (m *chainModel) cliqueGood(p *node, pick int, preferInTurn bool, target eco
 	if len(ps.signers) == 0 {
 		panic("harness: empty signer set")
 	}
-	signer := allowed[pick%len(allowed)]
 	it := ps.signers[num%uint64(len(ps.signers))]
-	if preferInTurn && indexOfAddr(allowed, it) >= 0 {
-		signer = it
-	}
+	signer := chooseSigner(allowed, it, pick, mode)
 	diff := int64(1)
 	if it == signer {
 		diff = 2
@@ -314,7 +311,7 @@ func (m *chainModel) cliqueBuildOp(op c29Op, p *node) (*types.Header, string) {
 		tag = "+checkpoint"
 	}
 	root := crypto.Keccak256Hash([]byte("root"), p.hash[:], []byte{byte(op.Signer), byte(op.Arg)})
-	h, ki := m.cliqueGood(p, op.Signer, op.InTurn, target, authorize, root, op.Dt)
+	h, ki := m.cliqueGood(p, op.Signer, turnMode(op), target, authorize, root, op.Dt)
 	if op.Kind != "mut" {
 		return h, op.Kind + tag
 	}
